@@ -1,5 +1,6 @@
 """C15 — interfeatures, introns and splice sites have exact gap geometry."""
 import copy
+import zlib
 import itertools
 import coqlit as L
 from props import imp
@@ -255,8 +256,12 @@ def run_impl(c):
         before = [(str(o), o.id) for o in objs]
         cfg = c["cfg"]
         try:
+            extra = {}
+            if zlib.crc32(repr(sorted(cfg.items())).encode() + str(len(objs)).encode()) % 4 == 0:
+                # an attribute_func that hands back a plain dict with a bare string where there is one value: one value it is
+                extra["attribute_func"] = lambda a: dict((k, (v[0] if len(v) == 1 else list(v))) for k, v in a.items())
             out = list(db.interfeatures(objs, new_featuretype=cfg["newft"], merge_attributes=cfg["merge"],
-                                        numeric_sort=cfg["numeric"], update_attributes=dict(cfg["update"]) or None))
+                                        numeric_sort=cfg["numeric"], update_attributes=dict(cfg["update"]) or None, **extra))
             res = rows_result(out)
         except Exception as ex:
             res = ["err", L.err_class(ex)]
